@@ -37,12 +37,14 @@ pub fn make_module() -> KMap {
 
         match map_instance_and_args(ctx, expected_error)? {
             (KValue::Map(m), [KValue::Map(other)]) => {
-                m.data_mut().extend(
-                    other
-                        .data()
-                        .iter()
-                        .map(|(key, value)| (key.clone(), value.clone())),
-                );
+                // The other map could be the same map as the one that's being extended,
+                // so its entries need to be copied before the map gets mutably borrowed.
+                let other_entries: Vec<_> = other
+                    .data()
+                    .iter()
+                    .map(|(key, value)| (key.clone(), value.clone()))
+                    .collect();
+                m.data_mut().extend(other_entries);
                 Ok(KValue::Map(m.clone()))
             }
             (KValue::Map(m), [iterable]) if iterable.is_iterable() => {
